@@ -6,6 +6,7 @@ import IrVerif.Drive.Pack
 import IrVerif.Drive.Passes
 import IrVerif.Drive.PassInfra
 import IrVerif.Drive.Writer
+import IrVerif.Drive.WriterN
 import IrVerif.Drive.Sort
 import IrVerif.Drive.Device
 import IrVerif.Drive.LinkedSet
@@ -33,6 +34,7 @@ def handlers : List Handler := [
   IrVerif.Drive.Passes.handle,
   IrVerif.Drive.PassInfra.handle,
   IrVerif.Drive.Writer.handle,
+  IrVerif.Drive.WriterN.handle,
   IrVerif.Drive.Sort.handle,
   IrVerif.Drive.Device.handle,
   IrVerif.Drive.LinkedSet.handle,
